@@ -559,6 +559,8 @@ func genC11() {
 		}
 	}
 
+	c11Release(g, rel)
+
 	// ---- GenerateIndexSBOM
 	if f := c11NewFn(rel, "", "GenerateIndexSBOM"); f != nil {
 		s, call := f.localFromCall("newSBOM")
@@ -702,6 +704,116 @@ func genC11() {
 		g.def("index_sbom_skips_none", "bool", skips, "GenerateIndexSBOM: the per-architecture loop appends once per iteration, no continue/break")
 	}
 	g.write()
+}
+
+// c11Release reads the os-release parser by shape: the function is the one whose result's fields
+// GenerateImageSBOM assigns to <opts>.OS.{ID,Name,Version}; in it the literal handed to <fs>.Open, the
+// keys `<m>["KEY"]` of the fields of the returned
+// literal, and the string fields of the literal returned when the file does not exist.
+func c11Release(g *gen, rel string) {
+	f := c11NewFn(rel, "Context", "GenerateImageSBOM")
+	if f == nil {
+		return
+	}
+	s, _ := f.localFromCall("newSBOM")
+	if s == "" {
+		return
+	}
+	// <opts>.OS.X = <info>.Field
+	fieldOf := map[string]string{}
+	parser := ""
+	for _, x := range []string{"ID", "Name", "Version"} {
+		ws := f.writesTo(s + ".OS." + x)
+		if len(ws) != 1 || len(ws[0].Rhs) != 1 {
+			fail("%s: GenerateImageSBOM: no single assignment to %s.OS.%s", rel, s, x)
+			return
+		}
+		sel, ok := ws[0].Rhs[0].(*ast.SelectorExpr)
+		if !ok {
+			fail("%s: GenerateImageSBOM: %s.OS.%s is not assigned from a field", rel, s, x)
+			return
+		}
+		fieldOf[x] = sel.Sel.Name
+		if id, ok := sel.X.(*ast.Ident); ok {
+			if ds, _ := f.defsOf(id.Name); len(ds) == 1 && ds[0].rhs != nil {
+				if c, ok := ds[0].rhs.(*ast.CallExpr); ok {
+					if fn, ok := c.Fun.(*ast.Ident); ok {
+						parser = fn.Name
+					}
+				}
+			}
+		}
+	}
+	if parser == "" {
+		fail("%s: GenerateImageSBOM: the value assigned to %s.OS.* does not come from a call of a package function", rel, s)
+		return
+	}
+	pd := findFunc(rel, "", parser)
+	if pd == nil {
+		return
+	}
+	lit1 := func(fun string, argIdx int) (string, bool) {
+		res, n := "", 0
+		ast.Inspect(pd.Body, func(nd ast.Node) bool {
+			c, ok := nd.(*ast.CallExpr)
+			if !ok || len(c.Args) <= argIdx {
+				return true
+			}
+			name := exprText(c.Fun)
+			if name == fun || (strings.HasPrefix(fun, ".") && strings.HasSuffix(name, fun)) {
+				if v, ok := strLit(c.Args[argIdx]); ok {
+					res = v
+					n++
+				}
+			}
+			return true
+		})
+		return res, n == 1
+	}
+	emit := func(name, what string, v string, ok bool) {
+		if !ok {
+			fail("%s: %s: %s not found exactly once as a string literal", rel, parser, what)
+			return
+		}
+		g.def(name, "string", coqStr(v), parser+": "+what)
+	}
+	v, ok := lit1(".Open", 0)
+	emit("os_release_path", "the path opened", v, ok)
+	// the returned literals
+	var withKeys, withLits map[string]string
+	ast.Inspect(pd.Body, func(nd ast.Node) bool {
+		cl, ok := nd.(*ast.CompositeLit)
+		if !ok {
+			return true
+		}
+		keys, lits := map[string]string{}, map[string]string{}
+		for _, el := range cl.Elts {
+			kv, ok := el.(*ast.KeyValueExpr)
+			if !ok {
+				continue
+			}
+			if ix, ok := kv.Value.(*ast.IndexExpr); ok {
+				if k, ok := strLit(ix.Index); ok {
+					keys[exprText(kv.Key)] = k
+				}
+			} else if l, ok := strLit(kv.Value); ok {
+				lits[exprText(kv.Key)] = l
+			}
+		}
+		if len(keys) > 0 && withKeys == nil {
+			withKeys = keys
+		}
+		if len(lits) > 0 && len(keys) == 0 && withLits == nil {
+			withLits = lits
+		}
+		return true
+	})
+	for _, x := range []struct{ opt, coq string }{{"ID", "id"}, {"Name", "name"}, {"Version", "version"}} {
+		k, ok := withKeys[fieldOf[x.opt]]
+		emit("os_release_key_"+x.coq, "the key whose value becomes <opts>.OS."+x.opt, k, ok)
+		d, ok := withLits[fieldOf[x.opt]]
+		emit("os_release_default_"+x.coq, "<opts>.OS."+x.opt+" when the file does not exist", d, ok)
+	}
 }
 
 func topOf(b *ast.BlockStmt, s ast.Stmt) bool {
